@@ -788,9 +788,9 @@ package tally
 //@   ensures @emptied len(s.counters) == 0 && len(s.gauges) == 0 && len(s.timers) == 0 && len(s.histograms) == 0
 //@   ensures @quiet quiet()
 //@   loop 1 invariant @deleting s.counters != nil && (forall k string :: seen(k) ==> !(k in s.counters)) && quiet()
-//@   loop 2 invariant @deleting s.gauges != nil && (forall k string :: seen(k) ==> !(k in s.gauges)) && len(s.counters) == 0 && quiet()
-//@   loop 3 invariant @deleting s.timers != nil && (forall k string :: seen(k) ==> !(k in s.timers)) && len(s.counters) == 0 && len(s.gauges) == 0 && quiet()
-//@   loop 4 invariant @deleting s.histograms != nil && (forall k string :: seen(k) ==> !(k in s.histograms)) && len(s.counters) == 0 && len(s.gauges) == 0 && len(s.timers) == 0 && quiet()
+//@   loop 2 invariant @deleting s.gauges != nil && (forall k string :: seen(k) ==> !(k in s.gauges)) && quiet()
+//@   loop 3 invariant @deleting s.timers != nil && (forall k string :: seen(k) ==> !(k in s.timers)) && quiet()
+//@   loop 4 invariant @deleting s.histograms != nil && (forall k string :: seen(k) ==> !(k in s.histograms)) && quiet()
 
 //@ pred bucketInv(b *scopeBucket) { b != nil && b.s != nil && (forall k string :: k in b.s ==> b.s[k] != nil && scopeWF(b.s[k])) }
 //@ pred cardWF(r *scopeRegistry) { r.root.cachedReporter != nil && !r.omitCardinalityMetrics ==> r.cachedCounterCardinalityGauge != nil && r.cachedGaugeCardinalityGauge != nil && r.cachedHistogramCardinalityGauge != nil && r.cachedScopeCardinalityGauge != nil }
